@@ -561,9 +561,11 @@ class Module(ABC):
         for i in self._branches_in_view:
             ncomp = self.base.ncomp_per_branch[i]
             comp_locs = np.linspace(0, 1, ncomp)
-            at = comp_locs if is_str_all(at) else self._reformat_index(at, dtype=float)
+            locs = (
+                comp_locs if is_str_all(at) else self._reformat_index(at, dtype=float)
+            )
             comp_edges = np.linspace(0, 1 + 1e-10, ncomp + 1)
-            idx = np.digitize(at, comp_edges) - 1 + self.base.cumsum_ncomp[i]
+            idx = np.digitize(locs, comp_edges) - 1 + self.base.cumsum_ncomp[i]
             global_comp_idxs.append(idx)
         global_comp_idxs = np.concatenate(global_comp_idxs)
         orig_scope = self._scope
